@@ -76,4 +76,63 @@ def gen_bdat(repo):
     return out
 
 
-GENERATORS = {'GenBdat.v': gen_bdat}
+def gen_bdat_rx(repo):
+    """receiving side: qsmtpd/data.c:smtp_bdat and lib/netio.c:net_readbin/readinput"""
+    rel = 'qsmtpd/data.c'
+    src = strip_comments(read(repo, rel))
+    c = {}
+    c['RX_KIB'] = one(r'#define\s+CHUNK_READ_SIZE\s+\(\s*INCOMING_CHUNK_SIZE\s*\*\s*(\d+)\s*\)', src, 'CHUNK_READ_SIZE')
+    fn = func_body(src, 'smtp_bdat', rel)
+    c['RX_READ_BACK'] = one(r'net_readbin\(\s*sizeof\(inbuf\)\s*-\s*(\d+)\s*,\s*inbuf\s*\)', fn, 'smtp_bdat full-buffer read')
+    for pat, what in [
+        (r'char\s+inbuf\[CHUNK_READ_SIZE\]\s*;', 'inbuf[CHUNK_READ_SIZE]'),
+        (r'if\s*\(\s*chunksize\s*>=\s*sizeof\(inbuf\)\s*\)', 'chunksize >= sizeof(inbuf)'),
+        (r'chunk\s*=\s*net_readbin\(\s*chunksize\s*,\s*inbuf\s*\)', 'net_readbin(chunksize, inbuf)'),
+        (r'if\s*\(\s*comstate\s*!=\s*0x0800\s*\)\s*\{\s*msgsize\s*=\s*0\s*;\s*comstate\s*=\s*0x0800\s*;\s*lastcr\s*=\s*0\s*;\s*bdaterr\s*=\s*queue_init\(\)\s*;',
+         'transaction start (msgsize, comstate, lastcr, queue_init)'),
+        (r'if\s*\(\s*!bdaterr\s*\)\s*bdaterr\s*=\s*write_received\(\s*1\s*\)\s*;', 'write_received(1)'),
+        (r'if\s*\(\s*chunk\s*==\s*\(size_t\)\s*-1\s*\)\s*\{\s*if\s*\(\s*!bdaterr\s*\)\s*bdaterr\s*=\s*errno\s*;\s*break\s*;', 'read error handling'),
+        (r'chunksize\s*-=\s*chunk\s*;\s*msgsize\s*\+=\s*chunk\s*;', 'chunksize -= chunk; msgsize += chunk'),
+        (r"if\s*\(\s*lastcr\s*&&\s*\(\s*inbuf\[0\]\s*!=\s*'\\n'\s*\)\s*\)\s*WRITEL\(\s*\"\\r\"\s*\)\s*;", 'held-back CR is written when no LF follows'),
+        (r"lastcr\s*=\s*\(\s*inbuf\[chunk\s*-\s*1\]\s*==\s*'\\r'\s*\)\s*;\s*if\s*\(\s*lastcr\s*\)\s*chunk--\s*;", 'trailing CR held back'),
+        (r"rlen\s*=\s*chunk\s*;\s*inbuf\[chunk\]\s*=\s*'\\0'\s*;", 'rlen = chunk; inbuf[chunk] = 0'),
+        (r"while\s*\(\s*\(\s*rlen\s*>\s*0\s*\)\s*&&\s*\(\s*cr\s*!=\s*NULL\s*\)\s*\)\s*\{\s*cr\s*=\s*memchr\(\s*cr\s*,\s*'\\r'\s*,\s*rlen\s*\)\s*;", 'CRLF loop head'),
+        (r"while\s*\(\s*\(\s*cr\s*!=\s*NULL\s*\)\s*&&\s*\(\s*cr\[1\]\s*!=\s*'\\n'\s*\)\s*\)\s*\{\s*const\s+ptrdiff_t\s+o\s*=\s*cr\s*-\s*pos\s*;\s*cr\s*=\s*memchr\(\s*cr\s*\+\s*1\s*,\s*'\\r'\s*,\s*rlen\s*-\s*o\s*\)\s*;", 'bare CR skip loop'),
+        (r"const\s+ptrdiff_t\s+l\s*=\s*cr\s*-\s*pos\s*\+\s*1\s*;\s*cr\[0\]\s*=\s*'\\n'\s*;\s*WRITE\(\s*pos\s*,\s*l\s*\)\s*;\s*rlen\s*-=\s*l\s*\+\s*1\s*;\s*cr\s*\+=\s*2\s*;\s*pos\s*=\s*cr\s*;", 'CRLF line write'),
+        (r"if\s*\(\s*\(\s*\*more\s*!=\s*'\\0'\s*\)\s*&&\s*lastcr\s*&&\s*!bdaterr\s*\)\s*\{\s*WRITEL\(\s*\"\\r\"\s*\)\s*;\s*lastcr\s*=\s*0\s*;\s*\}\s*if\s*\(\s*\(\s*msgsize\s*>\s*maxbytes\s*\)",
+         'held-back CR written at the end of the LAST chunk, after the read loop (fixes/C19-bdat-rx-trailing-cr.diff)'),
+        (r'if\s*\(\s*\(\s*msgsize\s*>\s*maxbytes\s*\)\s*&&\s*!bdaterr\s*\)', 'size limit'),
+        (r'if\s*\(\s*\*more\s*&&\s*!bdaterr\s*\)\s*\{\s*if\s*\(\s*queue_envelope\(\s*msgsize\s*,\s*1\s*\)\s*\)\s*goto\s+err_write\s*;\s*return\s+queue_result\(\)\s*;', 'envelope only for LAST without error'),
+        (r'if\s*\(\s*bdaterr\s*\)\s*\{\s*if\s*\(\s*queuefd_hdr\s*>=\s*0\s*\)\s*queue_reset\(\)\s*;\s*freedata\(\)\s*;', 'error: queue_reset, freedata'),
+    ]:
+        if not re.search(pat, fn):
+            raise TranslateError('smtp_bdat: %s not found' % what)
+    if re.search(r"pos\[rlen\+\+\]\s*=\s*'\\r'", fn):
+        raise TranslateError('smtp_bdat: the in-buffer re-insertion of a final CR is still present (model is of the repaired code)')
+    rel2 = 'lib/netio.c'
+    s2 = strip_comments(read(repo, rel2))
+    c['RX_LINEBUF'] = one(r'static\s+char\s+lineinbuf\[(\d+)\]\s*;', s2, 'lineinbuf size')
+    if not re.search(r'static\s+char\s+lineinn\[sizeof\(lineinbuf\)\]\s*;', s2):
+        raise TranslateError('netio.c: lineinn[sizeof(lineinbuf)] not found')
+    rb = func_body(s2, 'net_readbin', rel2)
+    c['RB_EXTRA'] = one(r'readinput\(\s*buf\s*\+\s*offs\s*,\s*num\s*\+\s*(\d+)\s*,\s*1\s*\)', rb, 'net_readbin readinput length')
+    for pat, what in [
+        (r'if\s*\(\s*linenlen\s*\)\s*\{\s*if\s*\(\s*linenlen\s*>\s*num\s*\)\s*\{\s*get_from_inbuffer\(\s*buf\s*,\s*num\s*,\s*0\s*\)\s*;\s*return\s+num\s*;', 'buffered data first'),
+        (r'memcpy\(\s*buf\s*,\s*lineinn\s*,\s*linenlen\s*\)\s*;\s*num\s*-=\s*linenlen\s*;\s*offs\s*=\s*linenlen\s*;\s*linenlen\s*=\s*0\s*;', 'buffer drained'),
+        (r'while\s*\(\s*num\s*\)\s*\{', 'read loop'),
+        (r'if\s*\(\s*r\s*==\s*\(size_t\)\s*-1\s*\)\s*return\s+-1\s*;\s*offs\s*\+=\s*r\s*;\s*num\s*-=\s*r\s*;', 'read accounting'),
+    ]:
+        if not re.search(pat, rb):
+            raise TranslateError('net_readbin: %s not found' % what)
+    ri = func_body(s2, 'readinput', rel2)
+    c['RI_BACK'] = one(r'retval\s*=\s*read\(\s*rfd\.fd\s*,\s*buffer\s*,\s*len\s*-\s*(\d+)\s*\)', ri, 'readinput read length')
+    if not re.search(r"buffer\[retval\]\s*=\s*'\\0'\s*;", ri):
+        raise TranslateError('readinput: terminating NUL not found')
+    out = HEADER % (rel + ', ' + rel2)
+    for k, v in c.items():
+        out += 'Definition %s : nat := %s.\n' % (k, v)
+    out += 'Definition RX_LINEBUF_MAX : nat := RX_LINEBUF - 1.\n'
+    return out
+
+
+GENERATORS = {'GenBdat.v': gen_bdat, 'GenBdatRx.v': gen_bdat_rx}
